@@ -243,6 +243,70 @@ public:
         return iterator(b_ + i);
     }
 
+    iterator erase(const_iterator pos) { return erase(pos, pos + 1); }
+
+    iterator erase(const_iterator first, const_iterator last) {
+        size_t i = size_t(first.base() - b_), j = size_t(last.base() - b_), n = size();
+        for (size_t k = j; k < n; ++k)
+            b_[i + (k - j)] = std::move(b_[k]);
+        destroy_range(b_ + (n - (j - i)), e_);
+        e_ = b_ + (n - (j - i));
+        return iterator(b_ + i);
+    }
+
+    template<class It, class = typename iterator_traits<It>::iterator_category>
+    void assign(It f, It l) {
+        clear();
+        for (; f != l; ++f)
+            emplace_back(*f);
+    }
+
+    void assign(size_t n, const T &v) {
+        clear();
+        for (size_t i = 0; i < n; ++i)
+            emplace_back(v);
+    }
+
+    template<class... Args>
+    iterator emplace(const_iterator pos, Args &&... args) { return insert(pos, T(std::forward<Args>(args)...)); }
+
+    T &at(size_t i) {
+        if (i >= size())
+            throw out_of_range("verif_vector::at");
+        return b_[i];
+    }
+    const T &at(size_t i) const {
+        if (i >= size())
+            throw out_of_range("verif_vector::at");
+        return b_[i];
+    }
+
+    reverse_iterator<iterator> rbegin() noexcept { return reverse_iterator<iterator>(end()); }
+    reverse_iterator<iterator> rend() noexcept { return reverse_iterator<iterator>(begin()); }
+    reverse_iterator<const_iterator> rbegin() const noexcept { return reverse_iterator<const_iterator>(end()); }
+    reverse_iterator<const_iterator> rend() const noexcept { return reverse_iterator<const_iterator>(begin()); }
+
+    void resize(size_t n, const T &v) {
+        size_t s = size();
+        if (n < s) {
+            destroy_range(b_ + n, e_);
+            e_ = b_ + n;
+        } else {
+            ensure(n);
+            for (size_t i = s; i < n; ++i)
+                ::new((void *) (b_ + i)) T(v);
+            e_ = b_ + n;
+        }
+    }
+
+    friend bool operator==(const verif_vector &a, const verif_vector &b) {
+        if (a.size() != b.size()) return false;
+        for (size_t i = 0; i < a.size(); ++i)
+            if (!(a.b_[i] == b.b_[i])) return false;
+        return true;
+    }
+    friend bool operator!=(const verif_vector &a, const verif_vector &b) { return !(a == b); }
+
     void swap(verif_vector &o) noexcept {
         std::swap(b_, o.b_);
         std::swap(e_, o.e_);
@@ -255,36 +319,67 @@ struct verif_cap<verif_vector<verif_vector<U>, A>> { static constexpr size_t val
 
 template<class K, class C = less<K>, class A = allocator<K>>
 class verif_set {
-    K a_[VERIF_SET_CAP];
+    K a_[VERIF_SET_CAP];      // kept sorted, so that iteration order is the real container's
     size_t n_ = 0;
 
+    size_t lb(const K &k) const {
+        size_t i = 0;
+        while (i < n_ && C()(a_[i], k)) ++i;
+        return i;
+    }
+
 public:
+    using key_type = K;
+    using value_type = K;
+    using size_type = size_t;
     using iterator = const K *;
     using const_iterator = const K *;
 
     verif_set() {}
 
-    iterator end() const { return a_ + n_; }
     iterator begin() const { return a_; }
+    iterator end() const { return a_ + n_; }
+    iterator cbegin() const { return a_; }
+    iterator cend() const { return a_ + n_; }
     size_t size() const { return n_; }
+    bool empty() const { return n_ == 0; }
+    void clear() { n_ = 0; }
 
     iterator find(const K &k) const {
-        for (size_t i = 0; i < n_; ++i)
-            if (a_[i] == k)
-                return a_ + i;
-        return end();
+        size_t i = lb(k);
+        return i < n_ && !C()(k, a_[i]) ? a_ + i : end();
+    }
+    size_t count(const K &k) const { return find(k) != end() ? 1 : 0; }
+    iterator lower_bound(const K &k) const { return a_ + lb(k); }
+    iterator upper_bound(const K &k) const {
+        size_t i = lb(k);
+        return a_ + (i < n_ && !C()(k, a_[i]) ? i + 1 : i);
+    }
+
+    pair<iterator, bool> insert(const K &k) {
+        size_t i = lb(k);
+        if (i < n_ && !C()(k, a_[i]))
+            return {a_ + i, false};
+        if (n_ >= VERIF_SET_CAP)
+            verif_cap_exceeded();
+        for (size_t j = n_; j > i; --j)
+            a_[j] = a_[j - 1];
+        a_[i] = k;
+        ++n_;
+        return {a_ + i, true};
     }
 
     template<class... Args>
-    pair<iterator, bool> emplace(Args &&... args) {
-        K k(std::forward<Args>(args)...);
-        auto it = find(k);
-        if (it != end())
-            return {it, false};
-        if (n_ >= VERIF_SET_CAP)
-            verif_cap_exceeded();
-        a_[n_] = k;
-        return {a_ + n_++, true};
+    pair<iterator, bool> emplace(Args &&... args) { return insert(K(std::forward<Args>(args)...)); }
+
+    size_t erase(const K &k) {
+        size_t i = lb(k);
+        if (i >= n_ || C()(k, a_[i]))
+            return 0;
+        for (size_t j = i + 1; j < n_; ++j)
+            a_[j - 1] = a_[j];
+        --n_;
+        return 1;
     }
 };
 
